@@ -34,15 +34,19 @@ import (
 	"net/url"
 	"os"
 	"path/filepath"
+	"reflect"
 	"regexp"
 	"strconv"
 	"strings"
 	"sync"
 	"testing"
 	"time"
+	"unsafe"
 
 	"github.com/Cloud-Foundations/golib/pkg/log/nulllogger"
+	"github.com/Cloud-Foundations/keymaster/lib/authenticators/okta"
 	"github.com/Cloud-Foundations/keymaster/lib/paths"
+	"github.com/Cloud-Foundations/keymaster/lib/pwauth"
 	"github.com/duo-labs/webauthn/webauthn"
 	"github.com/go-jose/go-jose/v4"
 	"github.com/go-jose/go-jose/v4/jwt"
@@ -123,6 +127,108 @@ func (v *c05Vip) handle(w http.ResponseWriter, r *http.Request) {
 			st = "7000"
 		}
 		env(fmt.Sprintf(`<PollPushStatusResponse %s><requestId>x</requestId><status>0000</status><statusMessage>Success</statusMessage><transactionStatus><transactionId>%s</transactionId><status>%s</status><statusMessage>m</statusMessage></transactionStatus></PollPushStatusResponse>`, ns, tx, st))
+	default:
+		http.Error(w, "unknown call", 400)
+	}
+}
+
+// ---------------------------------------------------------------- fake Okta authn API
+
+// The Okta authentication API as the authenticator of lib/authenticators/okta uses it: the primary call
+// answers a password check with a NEW state token (MFA_REQUIRED, a TOTP and a push factor, expiresAt = now +
+// c05OktaLife); factors/totp/verify accepts the pass code of the user the state token belongs to;
+// factors/push/verify sends the push on the first call for a state token (WAITING), keeps answering WAITING
+// until the owner approves, answers SUCCESS once, and refuses afterwards (the transaction is finished).
+const c05OktaLife = 300
+
+type c05Okta struct {
+	mu        sync.Mutex
+	srv       *httptest.Server
+	nextTok   int
+	tokUser   map[string]string
+	userTok   map[string]string
+	push      map[string]int // per state token: 0 not started, 1 waiting, 2 approved, 3 finished
+	passwords map[string]string
+}
+
+func c05OktaCode(user int, good bool) int {
+	if !good {
+		return 888888
+	}
+	return 100000*user + 7373
+}
+
+func (o *c05Okta) reset() {
+	o.mu.Lock()
+	o.tokUser, o.userTok, o.push = map[string]string{}, map[string]string{}, map[string]int{}
+	o.mu.Unlock()
+}
+
+func (o *c05Okta) pushState(user string) int {
+	o.mu.Lock()
+	defer o.mu.Unlock()
+	return o.push[o.userTok[user]]
+}
+
+// the owner of the phone approves the push that is waiting for the user's current state token
+func (o *c05Okta) approve(user string) bool {
+	o.mu.Lock()
+	defer o.mu.Unlock()
+	tok, ok := o.userTok[user]
+	if !ok || o.push[tok] != 1 {
+		return false
+	}
+	o.push[tok] = 2
+	return true
+}
+
+func (o *c05Okta) handle(w http.ResponseWriter, r *http.Request) {
+	w.Header().Set("Content-Type", "application/json")
+	o.mu.Lock()
+	defer o.mu.Unlock()
+	switch {
+	case strings.HasSuffix(r.URL.Path, "/api/v1/authn"):
+		var in okta.OktaApiLoginDataType
+		json.NewDecoder(r.Body).Decode(&in)
+		if pw, ok := o.passwords[in.Username]; !ok || pw != in.Password {
+			w.WriteHeader(http.StatusUnauthorized)
+			return
+		}
+		tok := fmt.Sprintf("st-%06d", o.nextTok)
+		o.nextTok++
+		o.tokUser[tok], o.userTok[in.Username], o.push[tok] = in.Username, tok, 0
+		json.NewEncoder(w).Encode(okta.OktaApiPrimaryResponseType{StateToken: tok, Status: "MFA_REQUIRED",
+			ExpiresAtString: time.Now().Add(c05OktaLife * time.Second).UTC().Format(time.RFC3339Nano),
+			Embedded: okta.OktaApiEmbeddedDataResponseType{Factor: []okta.OktaApiMFAFactorsType{
+				{Id: "totp", FactorType: "token:software:totp", VendorName: "OKTA"}, {Id: "push", FactorType: "push", VendorName: "OKTA"}}}})
+	case strings.HasSuffix(r.URL.Path, "/factors/totp/verify"):
+		var in okta.OktaApiVerifyTOTPFactorDataType
+		json.NewDecoder(r.Body).Decode(&in)
+		user, ok := o.tokUser[in.StateToken]
+		if idx := c05UserIdx[user]; ok && idx != 0 && in.PassCode == fmt.Sprintf("%06d", c05OktaCode(idx, true)) {
+			json.NewEncoder(w).Encode(okta.OktaApiPrimaryResponseType{Status: "SUCCESS"})
+			return
+		}
+		w.WriteHeader(http.StatusForbidden)
+	case strings.HasSuffix(r.URL.Path, "/factors/push/verify"):
+		var in okta.OktaApiVerifyTOTPFactorDataType
+		json.NewDecoder(r.Body).Decode(&in)
+		if _, ok := o.tokUser[in.StateToken]; !ok {
+			w.WriteHeader(http.StatusForbidden)
+			return
+		}
+		switch o.push[in.StateToken] {
+		case 0:
+			o.push[in.StateToken] = 1
+			json.NewEncoder(w).Encode(okta.OktaApiPushResponseType{Status: "MFA_CHALLENGE", FactorResult: "WAITING"})
+		case 1:
+			json.NewEncoder(w).Encode(okta.OktaApiPushResponseType{Status: "MFA_CHALLENGE", FactorResult: "WAITING"})
+		case 2:
+			o.push[in.StateToken] = 3
+			json.NewEncoder(w).Encode(okta.OktaApiPushResponseType{Status: "SUCCESS"})
+		default:
+			w.WriteHeader(http.StatusForbidden)
+		}
 	default:
 		http.Error(w, "unknown call", 400)
 	}
@@ -233,6 +339,17 @@ type c05Config struct {
 	names [3]string // index = model user id (1, 2)
 	devs  map[int]c05Devs
 	order []int
+	okta  bool // the password backend is the Okta authenticator (else htpasswd)
+}
+
+func (c c05Config) class() string {
+	switch {
+	case c.okta:
+		return "okta"
+	case strings.HasPrefix(c.tag, "family"):
+		return "family"
+	}
+	return "plain"
 }
 
 type c05Cookie struct {
@@ -255,6 +372,10 @@ type c05World struct {
 	names  []string // index = model user id
 	devs   map[int]c05Devs
 	cfg    c05Config
+	okta      *c05Okta
+	oktaAuth  *okta.PasswordAuthenticator
+	htpasswd  pwauth.PasswordAuthenticator
+	oktaAt    map[int]int64 // model time of the user's last successful password check through Okta
 	secret map[int]string
 	u2fKey map[int]*c05Key
 	waKey  map[int]*c05Key
@@ -358,6 +479,10 @@ func c05Configs() []c05Config {
 			cs = append(cs, c05Config{tag: "family-" + p[1] + "-norow", names: names, devs: map[int]c05Devs{1: full, 2: {}}, order: []int{1}})
 		}
 	}
+	// the Okta authenticator as password backend: every login goes to the (fake) Okta authn API, which is
+	// also what the Okta second factor asks; once with plain names, once with a pair of the family
+	cs = append(cs, c05Config{tag: "okta-plain", names: [3]string{"", "alice", "bob"}, devs: map[int]c05Devs{1: {totp: true, u2f: true, profile: true}, 2: {wa: true, profile: true}}, order: []int{1, 2}, okta: true})
+	cs = append(cs, c05Config{tag: "okta-family", names: [3]string{"", "jadoe", "j_doe"}, devs: map[int]c05Devs{1: full, 2: {profile: true}}, order: []int{1, 2}, okta: true})
 	return cs
 }
 
@@ -366,6 +491,42 @@ func (w *c05World) use(configs []c05Config, ci int) {
 	w.cfg, w.devs, w.cfgID = c, c.devs, ci
 	w.names = []string{"", c.names[1], c.names[2], "admin"}
 	c05UserIdx = map[string]int{c.names[1]: 1, c.names[2]: 2, "admin": 3}
+	if c.okta {
+		w.env.state.passwordChecker = w.oktaAuth
+	} else {
+		w.env.state.passwordChecker = w.htpasswd
+	}
+}
+
+// recentAuth of the Okta authenticator (unexported, another package): the cached answers of the password checks
+func (w *c05World) oktaCache() reflect.Value {
+	f := reflect.ValueOf(w.oktaAuth).Elem().FieldByName("recentAuth")
+	return reflect.NewAt(f.Type(), unsafe.Pointer(f.UnsafeAddr())).Elem()
+}
+
+func (w *c05World) clearOktaCache() {
+	m := w.oktaCache()
+	for _, key := range m.MapKeys() {
+		m.SetMapIndex(key, reflect.Value{})
+	}
+}
+
+// simulated time for the Okta authenticator: every cached answer expires d earlier
+func (w *c05World) ageOkta(d time.Duration) {
+	m := w.oktaCache()
+	for _, key := range m.MapKeys() {
+		nv := reflect.New(m.Type().Elem()).Elem()
+		nv.Set(m.MapIndex(key))
+		ef := nv.FieldByName("expires")
+		ep := reflect.NewAt(ef.Type(), unsafe.Pointer(ef.UnsafeAddr())).Elem()
+		ep.Set(reflect.ValueOf(ep.Interface().(time.Time).Add(-d)))
+		m.SetMapIndex(key, nv)
+	}
+}
+
+func (w *c05World) oktaValid(u int) bool {
+	at, ok := w.oktaAt[u]
+	return w.cfg.okta && ok && w.nowM < at+c05OktaLife
 }
 
 // A CLI token's expiry is a signed claim the harness cannot move: tokens that must stay valid live longer
@@ -375,6 +536,7 @@ const c05TokenLife = 1000000
 
 const (
 	c05PW, c05U2F, c05VIP, c05TOTP, c05BOOT, c05X509, c05CLI, c05FIDO2 = 1, 3, 4, 6, 8, 9, 10, 11
+	c05OKTA                                                              = 7
 )
 
 var c05Factors = []int{1, 2, 3, 4, 5, 6, 7, 8, 9, 10, 11}
@@ -436,6 +598,9 @@ func (w *c05World) reset() {
 	w.txReal, w.txOwner, w.vcTx = map[int]string{}, map[int]int{}, map[int]int{}
 	w.vcAt = map[int]int64{}
 	w.values, w.handed = map[string]int{}, -1
+	w.oktaAt = map[int]int64{}
+	w.okta.reset()
+	w.clearOktaCache()
 	w.firstChal = map[int]int{}
 	w.chalBytes, w.chalOwner, w.chalAt, w.curChal = map[int][]byte{}, map[int]int{}, map[int]int64{}, map[int]int{}
 	w.otpVal, w.otpOwner, w.otpExp, w.curOtp = map[int]string{}, map[int]int{}, map[int]int64{}, map[int]int{}
@@ -560,6 +725,7 @@ func (w *c05World) tick(dt int64) {
 			w.dirty = true
 		}
 	}
+	w.ageOkta(d)
 	st.Mutex.Lock()
 	for v, e := range st.vipPushCookie {
 		e.ExpiresAt = e.ExpiresAt.Add(-d)
@@ -840,6 +1006,9 @@ func (w *c05World) login(u int, ok bool) {
 	em := w.emitted(rr)
 	if ok {
 		w.prove(u, c05PW)
+		if w.cfg.okta && len(em) > 0 {
+			w.oktaAt[u] = w.nowM // a new state token, cached for c05OktaLife seconds
+		}
 	}
 	w.record("Login", fmt.Sprintf("Login %d %s", u, coqBool(ok)), fmt.Sprintf("Login(%s,%v)", w.names[u], ok), 0, rr.Code < 400, em)
 }
@@ -1114,6 +1283,62 @@ func (w *c05World) finish(kind string, cs []int, owner int, wa bool, chal int) {
 	w.acceptOnce(kind, fmt.Sprintf("challenge:%d", chal), known && w.nowM >= w.chalAt[chal]+int64(maxAgeU2FVerifySeconds), em)
 }
 
+// ---- the Okta second factor
+func (w *c05World) oktaExpiredOracle(kind string, su int, em []c05Cookie) {
+	if at, ok := w.oktaAt[su]; len(em) > 0 && su != 0 && (!ok || w.nowM >= at+c05OktaLife) {
+		w.res.hit(verifHit{Key: "C05:expired:" + kind, Oracle: "an expired value never works", Kind: "history",
+			What: fmt.Sprintf("%s raised the level of %s although the Okta authentication it relies on is past its expiry (or never happened)", kind, w.names[su]), Case: append([]string{}, w.human...)})
+	}
+}
+
+func (w *c05World) oktaOtp(cs []int, owner int, good bool) {
+	f := url.Values{}
+	f.Set("OTP", fmt.Sprintf("%06d", c05OktaCode(owner, good)))
+	req := verifNewRequest("POST", okta2FAauthPath, f)
+	su, _ := w.attach(req, cs)
+	if good && su == owner && w.oktaValid(su) {
+		w.prove(owner, c05OKTA)
+	}
+	rr := w.serve(req)
+	em := w.emitted(rr)
+	code := "VBad"
+	if good {
+		code = fmt.Sprintf("(VGood %d)", owner)
+	}
+	w.record("OktaOtp", fmt.Sprintf("OktaOtp %s %s", c05CoqList(cs), code), fmt.Sprintf("OktaOtp%v(code of %s, good=%v)", cs, w.names[owner], good), su, rr.Code < 400, em)
+	w.oktaExpiredOracle("OktaOtp", su, em)
+}
+
+func (w *c05World) oktaPushStart(cs []int) {
+	req := verifNewRequest("POST", oktaPushStartPath, url.Values{})
+	su, _ := w.attach(req, cs)
+	rr := w.serve(req)
+	w.record("OktaPushStart", "OktaPushStart "+c05CoqList(cs), fmt.Sprintf("OktaPushStart%v", cs), su, rr.Code == 200, w.emitted(rr))
+}
+
+func (w *c05World) oktaApprove(u int) {
+	if w.okta.approve(w.names[u]) {
+		w.prove(u, c05OKTA) // the owner of the phone approves: that user has proved the factor
+	}
+	w.ops = append(w.ops, fmt.Sprintf("OktaApprove %d", u))
+	w.outs = append(w.outs, "(true, None, None)")
+	w.human = append(w.human, fmt.Sprintf("OktaApprove(%s)", w.names[u]))
+	w.res.bump("op:OktaApprove")
+}
+
+func (w *c05World) oktaPoll(cs []int) {
+	req := verifNewRequest("POST", oktaPollCheckPath, url.Values{})
+	su, _ := w.attach(req, cs)
+	// the service confirms now that the authenticated user approved the push for her current state token
+	if su != 0 && w.oktaValid(su) && w.okta.pushState(w.names[su]) == 2 {
+		w.prove(su, c05OKTA)
+	}
+	rr := w.serve(req)
+	em := w.emitted(rr)
+	w.record("OktaPoll", "OktaPoll "+c05CoqList(cs), fmt.Sprintf("OktaPoll%v", cs), su, rr.Code < 400, em)
+	w.oktaExpiredOracle("OktaPoll", su, em)
+}
+
 func (w *c05World) issueOtp(target int, dur int64) {
 	f := url.Values{}
 	f.Set("username", w.names[target])
@@ -1360,6 +1585,20 @@ func (w *c05World) randomOpPlain(rng *mrand.Rand) {
 			return pickCs()
 		}
 		other := 3 - u
+		if w.cfg.okta && rng.Intn(2) == 0 {
+			// continue the user's Okta push where it stands, or present a pass code
+			switch st := w.okta.pushState(w.names[u]); {
+			case rng.Intn(4) == 0:
+				w.oktaOtp(ses(), u, true)
+			case st == 0:
+				w.oktaPushStart(ses())
+			case st == 1 && rng.Intn(3) != 0:
+				w.oktaApprove(u)
+			default:
+				w.oktaPoll(ses())
+			}
+			return
+		}
 		switch rng.Intn(10) {
 		case 9: // a value of the other user, presented in a session of u
 			own := []int{}
@@ -1388,7 +1627,11 @@ func (w *c05World) randomOpPlain(rng *mrand.Rand) {
 					w.issueOtp(other, 3600)
 				}
 			default:
-				w.vipOtp(cs, other, true)
+				if w.cfg.okta {
+					w.oktaOtp(cs, other, true)
+				} else {
+					w.vipOtp(cs, other, true)
+				}
 			}
 			return
 		case 0:
@@ -1433,6 +1676,20 @@ func (w *c05World) randomOpPlain(rng *mrand.Rand) {
 			w.totp(ses(), u, w.modelStep()+int64(rng.Intn(3))-1)
 			return
 		case 5:
+			if w.cfg.okta {
+				// continue the user's Okta push where it stands, or present a pass code
+				switch st := w.okta.pushState(w.names[u]); {
+				case rng.Intn(3) == 0:
+					w.oktaOtp(ses(), u, true)
+				case st == 0:
+					w.oktaPushStart(ses())
+				case st == 1 && rng.Intn(3) != 0:
+					w.oktaApprove(u)
+				default:
+					w.oktaPoll(ses())
+				}
+				return
+			}
 			w.vipOtp(ses(), u, true)
 			return
 		case 6:
@@ -1483,11 +1740,24 @@ func (w *c05World) randomOpPlain(rng *mrand.Rand) {
 			w.bootstrap(pickCs(), rng.Intn(w.fresh+1)-1)
 		}
 	case 17:
+		if w.cfg.okta || rng.Intn(4) == 0 {
+			switch rng.Intn(5) {
+			case 0:
+				w.oktaOtp(pickCs(), user(), rng.Intn(4) != 0)
+			case 1:
+				w.oktaPushStart(pickCs())
+			case 2:
+				w.oktaApprove(user())
+			default:
+				w.oktaPoll(pickCs())
+			}
+			return
+		}
 		w.showTok(pickCs(), []int64{0, c05TokenLife}[rng.Intn(2)])
 	case 18:
 		w.sendDoc(pickCs(), rng.Intn(len(w.tokens)+1))
 	default:
-		w.tick([]int64{30, 31, 45, 60, 3600, 3600, 6 * 3600}[rng.Intn(7)])
+		w.tick([]int64{30, 31, 45, 60, 150, 3600, 3600, 6 * 3600}[rng.Intn(8)])
 	}
 }
 
@@ -1770,12 +2040,65 @@ func (w *c05World) targeted() []func() {
 			cross(2, 1, 1)
 			cross(1, 2, 1)
 		},
+		func() { // the Okta second factor: whose pass code, whose push, and for how long after the password check
+			w.oktaOtp([]int{1}, 1, true) // alice's code in bob's session
+			w.oktaOtp([]int{0}, 1, false)
+			w.oktaOtp([]int{0}, 1, true)
+			w.oktaOtp([]int{1, 0}, 1, true)
+			w.oktaPoll([]int{1}) // nothing started: the poll itself sends bob's push
+			w.oktaPushStart([]int{1})
+			w.oktaPoll([]int{1})
+			w.oktaApprove(1) // alice has no push waiting
+			w.oktaPoll([]int{1})
+			w.oktaApprove(2)
+			w.oktaPoll([]int{0}) // alice polls: starts her own
+			w.oktaPoll([]int{1})
+			w.oktaPoll([]int{1}) // finished: once only
+			w.oktaPushStart([]int{0})
+			w.oktaApprove(1)
+			w.oktaPushStart([]int{0}) // the start handler swallows the approval
+			w.oktaPoll([]int{0})
+			w.login(1, true) // a new password check: a new state token
+			last := len(w.cookies) - 1
+			w.oktaPushStart([]int{last})
+			w.oktaApprove(1)
+			w.with(1, false, func() { w.oktaPoll([]int{1}) }) // alice's certificate, bob's cookie
+			w.oktaPoll([]int{0, last})
+			w.tick(150)
+			w.oktaOtp([]int{1}, 2, true) // bob, 150 s after his password check
+			w.tick(150)
+			w.oktaOtp([]int{1}, 2, true) // 300 s: the Okta authentication has expired
+			w.oktaPushStart([]int{1})
+			w.oktaPoll([]int{1})
+			w.oktaOtp([]int{last}, 1, true) // alice logged in 300 s ago too
+			w.login(2, true)
+			w.oktaOtp([]int{1}, 2, true) // the OLD cookie of bob, the new Okta authentication
+			w.oktaOtp([]int{len(w.cookies) - 1}, 2, true)
+		},
+	}
+}
+
+// the Okta second factor in small scope (runs under the Okta configuration)
+func (w *c05World) oktaAlphabet() []func() {
+	last := func() int { return len(w.cookies) - 1 }
+	return []func(){
+		func() { w.oktaOtp([]int{0}, 1, true) },
+		func() { w.oktaOtp([]int{1}, 1, true) },
+		func() { w.oktaPushStart([]int{0}) },
+		func() { w.oktaApprove(1) },
+		func() { w.oktaPoll([]int{last()}) },
+		func() { w.oktaPoll([]int{1}) },
+		func() { w.tick(150) },
+		func() { w.login(1, true) },
 	}
 }
 
 // the scenarios from this index on are about WHOSE value is presented: they are the ones run under every
 // configuration of the name family
 const c05FamilyTargetedFrom = 15
+
+// ... and this one is the Okta scenario
+const c05OktaTargeted = 16
 
 func TestVerif_C05(t *testing.T) {
 	verifWriteConsts(t)
@@ -1789,7 +2112,7 @@ func TestVerif_C05(t *testing.T) {
 	vip.srv.StartTLS()
 	defer vip.srv.Close()
 	env := verifSetup(t, func(c *AppConfigFile, dir string) {
-		c.Base.AllowedAuthBackendsForWebUI = []string{"U2F", "SymantecVIP", "TOTP", "BootstrapOTP"}
+		c.Base.AllowedAuthBackendsForWebUI = []string{"U2F", "SymantecVIP", "TOTP", "BootstrapOTP", "Okta2FA"}
 		c.Base.AllowedAuthBackendsForCerts = []string{"U2F", "SymantecVIP", "TOTP"}
 		c.Base.AdminUsers = []string{"admin"}
 		c.Base.EnableLocalTOTP = true
@@ -1826,6 +2149,20 @@ func TestVerif_C05(t *testing.T) {
 		c.SymantecVIP.CertFile = filepath.Join(dir, "vip-cert.pem")
 		c.SymantecVIP.KeyFile = filepath.Join(dir, "vip-key.pem")
 	})
+	oktaSvc := &c05Okta{passwords: map[string]string{"alice": "alicepw", "bob": "bobpw", "admin": "adminpw"}}
+	for _, n := range c05FamilyNames() {
+		oktaSvc.passwords[n] = n + "pw"
+	}
+	oktaSvc.reset()
+	oktaSvc.srv = httptest.NewServer(http.HandlerFunc(oktaSvc.handle))
+	defer oktaSvc.srv.Close()
+	oktaAuth, err := okta.NewPublicTesting(oktaSvc.srv.URL+"/api/v1/authn", nulllogger.New())
+	if err != nil {
+		t.Fatal(err)
+	}
+	// main() registers the Okta second-factor routes when an Okta domain is configured
+	env.state.Config.Okta.Domain = "verif"
+	env.state.Config.Okta.Enable2FA = true
 	client := env.state.Config.SymantecVIP.Client
 	if client == nil {
 		t.Fatal("VIP client not configured")
@@ -1840,6 +2177,7 @@ func TestVerif_C05(t *testing.T) {
 	logger = nulllogger.New()
 	webui := env.state.getRequiredWebUIAuthLevel()
 	w := &c05World{t: t, env: env, vip: vip, res: res, names: []string{"", "alice", "bob", "admin"}, webui: webui,
+		okta: oktaSvc, oktaAuth: oktaAuth, htpasswd: env.state.passwordChecker,
 		secret: map[int]string{}, u2fKey: map[int]*c05Key{}, waKey: map[int]*c05Key{}}
 	for u := 1; u <= 2; u++ {
 		key, err := totp.Generate(totp.GenerateOpts{Issuer: "verif", AccountName: w.names[u]})
@@ -1880,8 +2218,19 @@ func TestVerif_C05(t *testing.T) {
 		w.use(configs, ci)
 		n := len(w.targeted())
 		for i := 0; i < n; i++ {
-			if ci >= 2 && i < c05FamilyTargetedFrom {
-				continue // the name families run the scenarios that are about WHOSE value is presented
+			switch configs[ci].class() {
+			case "family": // the name families run the scenario that is about WHOSE value is presented
+				if i != c05FamilyTargetedFrom {
+					continue
+				}
+			case "okta":
+				if i != c05FamilyTargetedFrom && i != c05OktaTargeted {
+					continue
+				}
+			default:
+				if i == c05OktaTargeted && ci != 0 {
+					continue // without the Okta backend every Okta operation is refused: seen once
+				}
 			}
 			w.prefix()
 			w.targeted()[i]()
@@ -1892,6 +2241,8 @@ func TestVerif_C05(t *testing.T) {
 	}
 	// exhaustive small scope: depth 3 over the whole alphabet; thorough adds depth 4 over its first eight letters
 	w.use(configs, 0)
+	alphabetOf := w.alphabet
+	enumCfg := 0
 	enumerate := func(letters []int, depth int, tag string) {
 		nAlpha := len(letters)
 		total := 1
@@ -1902,10 +2253,10 @@ func TestVerif_C05(t *testing.T) {
 			w.prefix()
 			x := h
 			for i := 0; i < depth; i++ {
-				w.alphabet()[letters[x%nAlpha]]()
+				alphabetOf()[letters[x%nAlpha]]()
 				x /= nAlpha
 			}
-			finishHistory(0, tag)
+			finishHistory(enumCfg, tag)
 			res.bump("history:" + tag)
 		}
 	}
@@ -1920,6 +2271,22 @@ func TestVerif_C05(t *testing.T) {
 		enumerate(c05Core, 3, "exhaustive")
 		enumerate(allLetters, 2, "exhaustive-depth2")
 	}
+	// the Okta second factor: depth 3 (thorough 4) over its own alphabet under the Okta configuration
+	for ci := range configs {
+		if configs[ci].tag == "okta-plain" {
+			w.use(configs, ci)
+			alphabetOf, enumCfg = w.oktaAlphabet, ci
+			ol := make([]int, len(w.oktaAlphabet()))
+			for i := range ol {
+				ol[i] = i
+			}
+			if thorough {
+				enumerate(ol, 4, "exhaustive-okta")
+			} else {
+				enumerate(ol, 3, "exhaustive-okta")
+			}
+		}
+	}
 	res.Exhaustive = true
 	// random
 	nRandom, maxLen := 300, 12
@@ -1927,10 +2294,14 @@ func TestVerif_C05(t *testing.T) {
 		nRandom, maxLen = 2000, 20
 	}
 	for h := 0; h < nRandom; h++ {
-		// half of the random histories under the two plain configurations, half across the name family
+		// half of the random histories under the two plain configurations, a quarter across the name family
+		// ... and a quarter under the Okta configurations (the last two)
 		ci := (h / 2) % 2
-		if h%2 == 1 {
-			ci = 2 + (h/2)%(len(configs)-2)
+		switch h % 4 {
+		case 1:
+			ci = 2 + (h/4)%(len(configs)-4)
+		case 3:
+			ci = len(configs) - 2 + (h/4)%2
 		}
 		w.use(configs, ci)
 		w.prefix()
@@ -1974,11 +2345,15 @@ func TestVerif_C05(t *testing.T) {
 		sb.WriteString(fmt.Sprintf("Definition table%d : table := %s.\n", ci, tbl))
 		sb.WriteString(fmt.Sprintf("Definition devs%d : N -> devices := devs_of names%d table%d.\n", ci, ci, ci))
 		namesOK = append(namesOK, fmt.Sprintf("distinct [names%d 1; names%d 2; names%d 3]", ci, ci, ci))
-		cfgList = append(cfgList, fmt.Sprintf("devs%d", ci))
+		if c.okta {
+			cfgList = append(cfgList, fmt.Sprintf("fixed_okta devs%d webui_mask %d", ci, c05OktaLife))
+		} else {
+			cfgList = append(cfgList, fmt.Sprintf("fixed devs%d webui_mask", ci))
+		}
 	}
 	sb.WriteString(fmt.Sprintf("Definition webui_mask : N := %d.\n", webui))
-	sb.WriteString("Definition all_devs : list (N -> devices) := [" + strings.Join(cfgList, "; ") + "].\n")
-	sb.WriteString("Definition cfg_of (i : N) : config := fixed (nth (N.to_nat i) all_devs devs0) webui_mask.\n")
+	sb.WriteString("Definition all_cfgs : list config := [" + strings.Join(cfgList, "; ") + "].\n")
+	sb.WriteString("Definition cfg_of (i : N) : config := nth (N.to_nat i) all_cfgs (fixed devs0 webui_mask).\n")
 	sb.WriteString("(* distinct users have distinct names (the model compares user numbers, the code compares names) *)\nDefinition names_ok : bool := " + strings.Join(namesOK, " && ") + ".\n")
 	sb.WriteString(fmt.Sprintf("(* maxAgeSecondsAuthCookie / maxAgeSecondsVIPCookie / maxAgeU2FVerifySeconds of the tree must be the lifetimes the theorems are stated with *)\nDefinition life_ok : bool := ((%d =? cookie_life (cfg_of 0)) && (%d =? vip_life (cfg_of 0)) && (%d =? chal_life))%%Z.\n", int64(maxAgeSecondsAuthCookie), int64(maxAgeSecondsVIPCookie), int64(maxAgeU2FVerifySeconds)))
 	sb.WriteString("Definition hist := (N * list op * list observed)%type.\n")
